@@ -65,6 +65,25 @@ def _vars_of(term):
     return out
 
 
+def _floor_lemmas(*terms):
+    """valid monotonicity facts between the floor (ToInt) sub-terms of the given terms (they spare z3 a branch-and-bound)"""
+    seen, fl, todo = set(), [], list(terms)
+    while todo:
+        t = todo.pop()
+        if t.get_id() in seen:
+            continue
+        seen.add(t.get_id())
+        if t.decl().kind() == z3.Z3_OP_TO_INT:
+            fl.append(t)
+        todo.extend(t.children())
+    out = []
+    for i in range(len(fl)):
+        for j in range(i + 1, len(fl)):
+            a, b = fl[i].arg(0), fl[j].arg(0)
+            out += [z3.Implies(a <= b, fl[i] <= fl[j]), z3.Implies(b <= a, fl[j] <= fl[i])]
+    return out
+
+
 def _pit_specs(fam):
     from plinio.cost import params, ops, gap8_latency
     from plinio.cost.params_no_bias import params_no_bias
@@ -255,13 +274,14 @@ def _run_pit(res, p, selftest):
                     if not st.is_sym(c):
                         continue
                     c1 = z3.substitute(c, (v, v + delta))
-                    r, m = ex.check(delta >= 0, c1 < c)
+                    lem = _floor_lemmas(c, c1)
+                    r, m = ex.check(delta >= 0, c1 < c, *lem)
                     if r == 'unknown':
                         # non-linear query did not finish: the other mask parameters are enumerated on {1, 9/16} (stated in evidence notes)
                         others = [u for s2 in sy.values() for u in s2.elems() if u is not v]
                         r = 'unsat'
                         for val in (1, Fraction(9, 16)):
-                            r_, m = ex.check(delta >= 0, c1 < c, *[u == val for u in others])
+                            r_, m = ex.check(delta >= 0, c1 < c, *lem, *[u == val for u in others])
                             if r_ == 'unknown':
                                 r = 'unknown'
                                 break
